@@ -300,7 +300,8 @@ PROPS = {
         },
         "lean_props": ["C14"],
         "facts": ["ParFacts"],
-        "streams": [{"name": "parrace", "race": True, "model": False}, {"name": "copyrace", "race": True, "model": False}],
+        "streams": [{"name": "parrace", "race": True, "model": False}, {"name": "copyrace", "race": True, "model": False},
+                    {"name": "parracefirst", "race": True, "model": False}],
     },
     "C15": {
         "claim": {
